@@ -8,6 +8,7 @@ Feature switches (dict f):
   explicit_c    always write text:c, also for a single blank
   paragraphs    write a cell containing line breaks as several text:p (otherwise text:line-break)
   span_at / spans   split the text at that offset into a text:span ("head" or "tail")
+  span_range / span_nested   wrap text[i:j] in a text:span (optionally with a nested span), literal text before and after
   empty_as_p    write an empty cell as <table:table-cell><text:p/></table:table-cell>
   encoding      XML encoding of content.xml (UTF-8, UTF-16, ISO-8859-1)
   filler        extra non-table content (styles, settings) a real office suite would write
@@ -62,6 +63,15 @@ def encode_cell_content(text, f):
         return "<text:p/>" if f.get("empty_as_p") else ""
     if f.get("paragraphs") and "\n" in text:
         return "".join("<text:p>%s</text:p>" % encode_text(p, f) for p in text.split("\n"))
+    span_range = f.get("span_range")
+    if span_range is not None and len(text) > span_range[0] + 1:
+        # an inline element around text[i:j] (whatever it contains, also whitespace elements), with literal text before and after
+        i, j = span_range[0], min(span_range[1], len(text))
+        inner = encode_text(text[i:j], f)
+        if f.get("span_nested") and j - i >= 2:
+            middle = i + (j - i) // 2
+            inner = "<text:span>%s</text:span>%s" % (encode_text(text[i:middle], f), encode_text(text[middle:j], f))
+        return "<text:p>%s<text:span>%s</text:span>%s</text:p>" % (encode_text(text[:i], f), inner, encode_text(text[j:], f))
     at = f.get("span_at")
     if at is not None and 0 < at < len(text) and text[at - 1] not in WHITESPACE and text[at] not in WHITESPACE:
         head, tail = encode_text(text[:at], f), encode_text(text[at:], f)
